@@ -528,12 +528,42 @@ func (q *checker) bcheckAssignment(lhs *a.Expr, op t.ID, rhs *a.Expr) error {
 		return nil
 	}
 
+	// A store to "x[i]" might also change "x[j]" or, when a slice is involved,
+	// "s[k]". Drop every fact that mentions such an element.
+	lhsIsIndex := lhs.Operator() == a.ExprOperatorIndex
+	// lhsSelfRef is whether the store can change which element lhs denotes,
+	// as in "x[x[0]] = 1", so that nothing is known about lhs afterwards.
+	lhsSelfRef := false
+	if lhsIsIndex {
+		lhsIndexRoot := indexRoot(lhs)
+		if err := q.facts.update(func(x *a.Expr) (*a.Expr, error) {
+			if mentionsIndexOtherThan(x, lhs, lhsIndexRoot, 0) {
+				return nil, nil
+			}
+			return x, nil
+		}); err != nil {
+			return err
+		}
+		for o := lhs; o.Operator() == a.ExprOperatorIndex; o = o.LHS().AsExpr() {
+			if mentionsIndexOtherThan(o.RHS().AsExpr(), nil, lhsIndexRoot, 0) {
+				lhsSelfRef = true
+				break
+			}
+		}
+		if lhsSelfRef {
+			if err := q.facts.dropAnyFactsMentioning(lhs); err != nil {
+				return err
+			}
+		}
+	}
+
 	if op == t.IDEq {
 		if err := q.facts.dropAnyFactsMentioning(lhs); err != nil {
 			return err
 		}
 
-		if !rhs.Effect().Pure() || rhs.Mentions(lhs) {
+		if !rhs.Effect().Pure() || rhs.Mentions(lhs) || lhsSelfRef ||
+			(lhsIsIndex && mentionsIndexOtherThan(rhs, nil, indexRoot(lhs), 0)) {
 			// No-op. After "x = x + 1", it is not true that (x == (x + 1)).
 
 		} else if lhs.MType().IsNumType() {
@@ -641,7 +671,7 @@ func (q *checker) bcheckAssignment(lhs *a.Expr, op t.ID, rhs *a.Expr) error {
 		}
 	}
 
-	if lhs.MType().IsNumType() && ((op != t.IDEq) || (rhs.ConstValue() == nil)) {
+	if lhs.MType().IsNumType() && ((op != t.IDEq) || (rhs.ConstValue() == nil)) && !lhsSelfRef {
 		lb, err := q.bcheckTypeExpr(lhs.MType())
 		if err != nil {
 			return err
@@ -663,6 +693,56 @@ func (q *checker) bcheckAssignment(lhs *a.Expr, op t.ID, rhs *a.Expr) error {
 	}
 
 	return nil
+}
+
+// indexRoot strips the trailing index operations off n: the root of "x[i][j]"
+// is "x".
+func indexRoot(n *a.Expr) *a.Expr {
+	for (n != nil) && (n.Operator() == a.ExprOperatorIndex) {
+		n = n.LHS().AsExpr()
+	}
+	return n
+}
+
+// mentionsIndexOtherThan returns whether n contains an index expression like
+// "y[j]" that is not equal to exception (which may be nil) and that might be
+// the same memory as an element of something rooted at root: arrays are
+// values, so that two array-typed roots overlap only if they are equal, but a
+// slice can alias anything. A nil root means "anything".
+func mentionsIndexOtherThan(n *a.Expr, exception *a.Expr, root *a.Expr, depth uint32) bool {
+	if (n == nil) || (depth > a.MaxExprDepth) {
+		return false
+	}
+	depth++
+
+	if (n.Operator() == a.ExprOperatorIndex) && ((exception == nil) || !n.Eq(exception)) {
+		nRoot := indexRoot(n)
+		if (root == nil) || (nRoot == nil) ||
+			(root.MType() == nil) || (nRoot.MType() == nil) ||
+			!root.MType().IsEitherArrayType() || !nRoot.MType().IsEitherArrayType() ||
+			root.Eq(nRoot) {
+			return true
+		}
+	}
+	if mentionsIndexOtherThan(n.LHS().AsExpr(), exception, root, depth) ||
+		mentionsIndexOtherThan(n.MHS().AsExpr(), exception, root, depth) {
+		return true
+	}
+	if (n.Operator() != t.IDXBinaryAs) && mentionsIndexOtherThan(n.RHS().AsExpr(), exception, root, depth) {
+		return true
+	}
+	for _, o := range n.Args() {
+		if o.Kind() == a.KArg {
+			if mentionsIndexOtherThan(o.AsArg().Value(), exception, root, depth) {
+				return true
+			}
+		} else if o.Kind() == a.KExpr {
+			if mentionsIndexOtherThan(o.AsExpr(), exception, root, depth) {
+				return true
+			}
+		}
+	}
+	return false
 }
 
 // mentionsUserMethodCallOn returns whether n contains a call to a user-defined
